@@ -18,6 +18,7 @@ from __future__ import annotations
 
 import ast
 
+from ..astutil import first_stmt, last_stmt  # noqa: F401
 from ..astutil import (call_name, calls_in, guards_of, kwarg, norm, single_def_value, stmt_of,
                        stores_to, walk_no_nested)
 from ..loader import dotted_name
@@ -201,7 +202,7 @@ def run(ctx):
     bound = None
     for n in walk_no_nested(ld.node):
         if isinstance(n, ast.If) and f'{fvar} >= len(' in norm(n.test) and 'size_index' in norm(n.test):
-            if n.body and isinstance(n.body[0], (ast.Return, ast.Raise)):
+            if isinstance(first_stmt(n.body), (ast.Return, ast.Raise)):
                 bound = n
     users = [n for n in walk_no_nested(ld.node) if isinstance(n, ast.Subscript) and norm(n.slice) == fvar]
     ok = bound is not None and all(u.lineno > bound.lineno for u in users)
